@@ -1645,6 +1645,10 @@ func (bc *Blockchain) removeOldHeaderHashes(index uint32) time.Duration {
 		start   = time.Now()
 		till    = ((int32(index)+1)/headerBatchCount - 1) * headerBatchCount
 	)
+	// The last batch stored before the persisted height is needed to restore
+	// header hashes on restart (see HeaderHashes.init), so it must be kept even
+	// if MaxTraceableBlocks is smaller than the batch size.
+	till = min(till, ((int32(atomic.LoadUint32(&bc.persistedHeight))+1)/headerBatchCount-2)*headerBatchCount)
 	if till > 0 {
 		err = bc.store.SeekGC(storage.SeekRange{
 			Prefix: []byte{byte(storage.IXHeaderHashList)},
